@@ -125,11 +125,11 @@ def target_matrices(case):
 @st.composite
 def mcmc_case(draw, tier, holes=False, maxN=None):
     big = tier == "thorough"
-    pool = [("clique", 2), ("clique", 3), ("clique", 4), ("cycle", 4), ("cycle", 5), ("split4", 4)]
+    pool = [("clique", 2), ("clique", 3), ("clique", 4), ("cycle", 4), ("cycle", 5), ("split4", 4), ("path3", 3)]
     net = draw(NC.clean_network(maxN=maxN or (40 if not big else 120), minN=16, max_motifs=30 if not big else 120,
                                 min_topos=1, max_topos=3, min_motifs=6, min_rounds=2, topo_pool=pool))
     net["node_order"] = draw(st.sampled_from(["sorted", "sorted", "by_motifs"]))
-    net["jd_type"] = draw(st.sampled_from(["tuple", "tuple", "list"]))
+    net["jd_type"] = draw(st.sampled_from(["tuple", "tuple", "list", "ndarray"]))
     L = draw(st.sampled_from([0, 0, 1, 2, 3, 5, 10, 25, 60]))
     nedges = sum(len(NC.motif_edges(net["topos"][ti]["kind"], vs)) for ti, vs in net["motifs"])
     if nedges <= 40 and draw(st.integers(0, 5)) == 5:
@@ -156,8 +156,13 @@ def mcmc_case(draw, tier, holes=False, maxN=None):
     return c
 
 
+def _plain(d):
+    """node data with array-like annotations turned into tuples (so that snapshots compare with ==)."""
+    return {k: (tuple(int(x) for x in v.tolist()) if hasattr(v, "tolist") else copy.deepcopy(v)) for k, v in d.items()}
+
+
 def snapshot(G):
-    return (copy.deepcopy({n: d for n, d in G.nodes(data=True)}),
+    return ({n: _plain(d) for n, d in G.nodes(data=True)},
             copy.deepcopy({frozenset((u, v)): d for u, v, d in G.edges(data=True)}))
 
 
